@@ -1,5 +1,5 @@
 """C01 — every started operation completes exactly once, never before start."""
-import k1
+import k1, k2
 from units import when_all
 LEVEL = "proof"
 def run(chk, replay=None):
@@ -12,3 +12,4 @@ def run(chk, replay=None):
                        "distinct = distinct projected traces; non-trivial = at least two context switches among owned events")
     chk.prove()
     k1.run_unit(chk, when_all.WhenAllRefElect())
+    k2.standard_k2(chk)   # ties the Calc model (Properties_C01_calc.v) to the real algorithms
